@@ -31,6 +31,7 @@ class Knobs:
     action_pool: tuple[str, ...] = ()
     lookahead_terminals_only: bool = False
     nullable_loops: bool = True
+    forward_refs_only: bool = False   # a rule refers to later rules only (no recursion at all)
 
 
 RULE_NAMES = ["start", "a", "b", "c", "d", "e"]
@@ -41,6 +42,14 @@ class GrammarGen:
         self.r = r
         self.k = k
         self.names: list[str] = []
+        self.cur = 0
+
+    def solid(self, depth: int, first: bool) -> str:
+        """an atom for a repetition body: when nullable loops are excluded, a terminal or a group that starts with one"""
+        if self.k.nullable_loops:
+            return self.atom(depth, first)
+        t = self.r.choice([t for t in self.k.terminals if t[-1] not in "?*+"])
+        return t if self.r.random() < 0.5 or depth <= 0 else "(" + t + " " + self.alt(depth - 1, False, False) + ")"
 
     def atom(self, depth: int, first: bool) -> str:
         r, k = self.r, self.k
@@ -54,7 +63,8 @@ class GrammarGen:
             t = r.choice(k.terminals)
             return f"({t})" if t[-1] in "?*+" else t
         if c == "ref":
-            return r.choice(self.names)
+            pool = self.names[self.cur + 1:] if k.forward_refs_only else self.names
+            return r.choice(pool) if pool else r.choice([t for t in k.terminals if t[-1] not in "?*+"])
         return "(" + self.alts(depth - 1, first, top=False) + ")"
 
     def item(self, depth: int, first: bool) -> str:
@@ -80,11 +90,11 @@ class GrammarGen:
         elif op == "optb":
             core = "[" + self.alts(max(depth - 1, 0), first, top=False) + "]"
         elif op == "star":
-            core = self.atom(depth, first) + "*"
+            core = self.solid(depth, first) + "*"
         elif op == "plus":
-            core = self.atom(depth, first) + "+"
+            core = self.solid(depth, first) + "+"
         elif op == "gather":
-            core = self.atom(0, False if not k.left_rec else first) + "." + self.atom(depth, first) + "+"
+            core = self.atom(0, False if not k.left_rec else first) + "." + self.solid(depth, first) + "+"
         elif op == "pos":
             return "&" + (r.choice([t for t in k.terminals if t[-1] not in "?*"]) if k.lookahead_terminals_only else self.atom(depth, first))
         elif op == "neg":
@@ -123,7 +133,7 @@ class GrammarGen:
         if k.invalid:
             self.names = self.names + ["invalid_x"]
         lines = []
-        for nm in self.names:
+        for self.cur, nm in enumerate(self.names):
             ty = "[int]" if (k.typed and r.random() < 0.3) else ""
             memo = " (memo)" if (k.memo and r.random() < 0.2) else ""
             lines.append(f"{nm}{ty}{memo}: {self.alts(k.depth, True, top=True)}")
